@@ -204,6 +204,13 @@ pub fn gen_cfg(id: &str, tier: Tier, variant: u64) -> GenCfg {
             g.weights.consume = 2;
             g
         }
+        // ELIDE histories whose stale records have all been purged again are
+        // exact: the orphan obligation is checked there too
+        "C03" if variant % 4 == 2 => {
+            let mut g = GenCfg::new(Mode::Elide, ops);
+            g.weights.remove = 12;
+            g
+        }
         // a panicking destructor must not stop the rest of an orphaned group from
         // being destroyed before the drop "returns" (by unwinding)
         "C03" if variant % 4 == 1 => {
